@@ -266,7 +266,9 @@ pub fn eval(path: &PathSpec, st: &StyleSpec, xf: &Xf) -> Result<Stat, Violation>
     // against the true curve as well: with round joins the turning point is a disc, whatever the
     // flattening does there
     let collinear = curved && has_collinear_curve(&path.build().ops);
-    eval_with(path, st, xf, curved && st.join == 1 && (mag >= 1000.0 || collinear))
+    // ... and curves that follow a Close directly (where such a curve starts is the question there)
+    let after_close = path.ops.windows(2).any(|w| matches!(w[0], POp::Z) && matches!(w[1], POp::Q(..) | POp::C(..)));
+    eval_with(path, st, xf, curved && st.join == 1 && (mag >= 1000.0 || collinear || after_close))
 }
 
 /// `true_curve`: take the region of the true curve (finely sampled) instead of the region of
@@ -320,6 +322,33 @@ pub fn eval_with(path: &PathSpec, st: &StyleSpec, xf: &Xf, true_curve: bool) -> 
         }
     }
     Ok(stat)
+}
+
+/// C02's clause for curved strokes with a reference that is not the library's own flattening: every
+/// pixel more than a pixel outside the stroke region of the *true* curve (round joins) keeps its
+/// value. `scene` = [set_transform?, stroke(path, style, src, opts)].
+pub fn curved_stroke_leaves_the_outside_alone(scene: &Scene) -> Result<Option<u64>, Violation> {
+    let case = format!("curved | {}", scene);
+    let mut xf = IDENT;
+    let mut stroke = None;
+    for op in &scene.ops {
+        match op {
+            Op::SetTransform(t) => xf = *t,
+            Op::Stroke(p, st, _, _) => stroke = Some((p.clone(), st.clone())),
+            _ => {}
+        }
+    }
+    let (path, st) = stroke.ok_or_else(|| Violation::new("harness/no-stroke", case.clone(), String::new()))?;
+    let got = super::common::render(scene).map_err(|p| Violation::new("stroke/panic", case.clone(), p))?;
+    let before = scene.dst.pixels(scene.w, scene.h);
+    let marks: Vec<u32> = got.iter().zip(before.iter()).map(|(g, b)| if g != b { 0xffffffff } else { 0 }).collect();
+    let t = xf_to(&xf);
+    let lines = polylines_of(&model_flatten(&path.build().ops, t.determinant().abs().sqrt() as f64));
+    match check_region(&case, &marks, scene.w, scene.h, &lines, &params(&st), &xf, 1.0, "stroke") {
+        Ok(_) => Ok(Some(hash64(&got))),
+        Err(v) if v.sig.contains("exterior") => Err(v),
+        Err(_) => Ok(None),
+    }
 }
 
 fn grid4() -> Vec<(f32, f32)> {
@@ -532,6 +561,14 @@ impl Check for C04 {
                             account(run, 7000 + s, l, &path, &stk, &xf, false);
                         }
                     }
+                    // a curve directly after Close starts at the subpath's first point (round joins: against
+                    // the true curve under the magnification rule, else against the flattened polyline)
+                    if join == 1 && (s + cap as usize) % 3 == 0 {
+                        let path = PathSpec::new(vec![POp::M(a.0, a.1), POp::L(b.0, b.1), POp::L(18., 17.), POp::Z, POp::Q(c.0, c.1, 30., 21.)]);
+                        account(run, 7000 + s, l, &path, &st, &IDENT, false);
+                        let path = PathSpec::new(vec![POp::M(a.0, a.1), POp::L(b.0, b.1), POp::L(18., 17.), POp::Z, POp::C(c.0, c.1, 6., 19., 30., 21.)]);
+                        account(run, 7000 + s, l, &path, &st, &[1., 0., 0., 1., 0.5, 0.25], false);
+                    }
                     if !q {
                         for d in &cp {
                             let path = PathSpec::new(vec![POp::M(a.0, a.1), POp::C(b.0, b.1, c.0, c.1, d.0, d.1)]);
@@ -546,7 +583,7 @@ impl Check for C04 {
         // the stroked region does not depend on the path's own fill rule, nor on the size of the
         // user unit: the same device geometry from a path 10^5 times smaller under scale 10^5
         // (every user-space segment is shorter than 2^-12), and 10^3 times larger under 10^-3
-        run.bound("fill-rule flag and extreme user units", "3-vertex polylines over the 16 grid points x (round cap, square cap, closed) x (round, miter 4) x width 8: path flagged EvenOdd; path / 1e5 under scale 1e5; path x 1e3 under scale 1e-3; path moved by (16384, 20000) and (-30000, 9000) under the opposite translation".to_string());
+        run.bound("fill-rule flag and extreme user units", "3-vertex polylines over the 16 grid points x (round cap, square cap, closed) x (round, miter 4) x width 8: path flagged EvenOdd; path / 1e5 under scale 1e5; path x 1e3 under scale 1e-3; path x 2^60 under scale 2^-60 and path x 2^-40 under scale 2^40; path moved by (16384, 20000) and (-30000, 9000) under the opposite translation".to_string());
         run.par(g.len() * g.len(), |s, l| {
             let (i0, i1) = (s / g.len(), s % g.len());
             if i0 == i1 {
@@ -569,7 +606,9 @@ impl Check for C04 {
                         };
                         let st = StyleSpec { width: 8.0, cap, join, miter, dash: vec![], offset: 0. };
                         account(run, 9000 + s, l, &mk(1.0, true), &st, &IDENT, false);
-                        for k in [1e-5f32, 1e3] {
+                        // (2^60 and 2^-40: squares of the user-space lengths leave the f32 range long before
+                        // the lengths do)
+                        for k in [1e-5f32, 1e3, 1152921504606846976.0, 9.094947e-13] {
                             let stk = StyleSpec { width: 8.0 * k, ..st.clone() };
                             account(run, 9000 + s, l, &mk(k, false), &stk, &[1.0 / k, 0., 0., 1.0 / k, 0., 0.], false);
                         }
